@@ -100,7 +100,7 @@ def iterGo : Nat → Nat → Nat → List VarRef → Cigar → List Yield × Opt
 
 /-- `(index, position)` for the variants from index `j` on -/
 def varRefsFrom (positions : List Nat) (j : Nat) : List VarRef :=
-  ((List.range positions.length).zip positions).drop j
+  (enumFrom 0 positions).drop j
 
 /-- `_iterate_cigar(variants, j, bam_read, cigartuples)`; `positions` = `[v.position for v in variants]` -/
 def iterateCigar (positions : List Nat) (j refStart : Nat) (cigar : Cigar) : List Yield × Option Err :=
@@ -178,32 +178,41 @@ deriving Repr, DecidableEq
 
 /-- the window extraction of `realign`: the query slice and the padded alleles (REF first) -/
 def window (f14 : Bool) (v : Variant) (query : Seq) (cigar : Cigar) (i consumed : Nat) (queryPos : Int)
-    (reference : Seq) (overhang : Nat) : Except Err Window := do
-  let left ← splitLeft cigar i consumed
-  let (lr, lq) ← cigarPrefixLength f14 left overhang
-  let right ← splitRight cigar i consumed
-  let (rr, rq) ← cigarPrefixLength f14 right (v.ref.length + overhang)
-  if v.pos < lr then throw .assertion
-  if v.pos + rr > reference.length then throw .assertion
-  let q := pySlice query (queryPos - lq) (queryPos + rq)
-  let leftPad := pySlice reference ((v.pos : Int) - lr) v.pos
-  let rightPad := pySlice reference ((v.pos : Int) + v.ref.length) ((v.pos : Int) + rr)
-  let paddedRef := pySlice reference ((v.pos : Int) - lr) ((v.pos : Int) + rr)
-  return ⟨q, paddedRef :: v.alts.map (fun alt => leftPad ++ alt ++ rightPad)⟩
+    (reference : Seq) (overhang : Nat) : Except Err Window :=
+  match splitLeft cigar i consumed with
+  | .error e => .error e
+  | .ok left =>
+    match cigarPrefixLength f14 left overhang with
+    | .error e => .error e
+    | .ok (lr, lq) =>
+      match splitRight cigar i consumed with
+      | .error e => .error e
+      | .ok right =>
+        match cigarPrefixLength f14 right (v.ref.length + overhang) with
+        | .error e => .error e
+        | .ok (rr, rq) =>
+          if v.pos < lr then .error .assertion
+          else if v.pos + rr > reference.length then .error .assertion
+          else
+            let q := pySlice query (queryPos - lq) (queryPos + rq)
+            let leftPad := pySlice reference ((v.pos : Int) - lr) v.pos
+            let rightPad := pySlice reference ((v.pos : Int) + v.ref.length) ((v.pos : Int) + rr)
+            let paddedRef := pySlice reference ((v.pos : Int) - lr) ((v.pos : Int) + rr)
+            .ok ⟨q, paddedRef :: v.alts.map (fun alt => leftPad ++ alt ++ rightPad)⟩
 
-def enumFrom {α} : Nat → List α → List (Nat × α)
-  | _, [] => []
-  | n, x :: xs => (n, x) :: enumFrom (n + 1) xs
+/-- `[(i, edit_distance(query, allele)) for i, allele in enumerate(padded_alleles) if restricted is None or i in …]` -/
+def distances (dist : Seq → Seq → Nat) (restricted : Option (List Nat)) (w : Window) : List (Nat × Nat) :=
+  (enumFrom 0 w.padded).filterMap (fun p =>
+    if (match restricted with | none => true | some r => r.contains p.1) then some (p.1, dist w.query p.2) else none)
 
 /-- `ReadSetReader.realign(...)[0]` (the quality is the constant 30 whenever an allele is returned) -/
 def realign (f14 : Bool) (dist : Seq → Seq → Nat) (v : Variant) (restricted : Option (List Nat)) (query : Seq)
     (cigar : Cigar) (i consumed : Nat) (queryPos : Int) (reference : Seq) (overhang : Nat) :
-    Except Err (Option Nat) := do
-  if isSymbolic v then return none
-  let w ← window f14 v query cigar i consumed queryPos reference overhang
-  let ds := (enumFrom 0 w.padded).filterMap (fun (k, allele) =>
-    if (match restricted with | none => true | some r => r.contains k) then some (k, dist w.query allele) else none)
-  decideAllele ds
+    Except Err (Option Nat) :=
+  if isSymbolic v then .ok none else
+  match window f14 v query cigar i consumed queryPos reference overhang with
+  | .error e => .error e
+  | .ok w => decideAllele (distances dist restricted w)
 
 /-- `detect_alleles_by_alignment`: `(index, allele, 30)` per decided variant -/
 def detectRefGo (f14 : Bool) (dist : Seq → Seq → Nat) (variants : List Variant) (restricted : Option (List (List Nat)))
